@@ -638,9 +638,9 @@ class DatasetProcessor:
                     os.remove(lock_file)
             clean_locks(chr_ids, saves_file, reads_collected_lock_file_name)
             clean_locks(chr_ids, saves_file, reads_processed_lock_file_name)
-            for f in glob.glob(saves_file + "_*"):
+            for f in glob.glob(glob.escape(saves_file) + "_*"):
                 os.remove(f)
-            for f in glob.glob(sample.read_group_file + "*"):
+            for f in glob.glob(glob.escape(sample.read_group_file) + "*"):
                 os.remove(f)
         logger.info("Processed experiment " + sample.prefix)
 
